@@ -215,7 +215,7 @@ def snapshot(H, public_uid=True):
     except Exception as ex:  # noqa  (an ID without attribute record: still a state, compare the failure)
         s["node-attrs"] = s["edge-attrs"] = ("err", type(ex).__name__, str(ex)[:80])
     s["frozen-flag"] = fz(H.is_frozen)
-    s["next-edge-id"] = (fz(next(copy.copy(H._edge_uid))), next_uid_public(H) if public_uid else None)
+    s["next-edge-id"] = ("tuple", (fz(next(copy.copy(H._edge_uid))), next_uid_public(H) if public_uid else fz(None)))
     # everything the object holds, read generically (field names are not spelled out): catches the key order of the
     # three attribute dicts, the network attributes, the counter and any private field
     raw = {k: fz(v) for k, v in vars(H).items()}
